@@ -50,7 +50,10 @@ type (
 		Body   Expr
 	}
 	EDeref struct{ X Expr }
+	ERange struct{ Lo, Hi Expr }
 )
+
+func (e *ERange) String() string { return e.Lo.String() + ".." + e.Hi.String() }
 
 type Binder struct {
 	Name   string
@@ -588,6 +591,13 @@ func (p *parser) parsePostfix() Expr {
 				continue
 			}
 			lo = p.parseExpr()
+			if p.accept("..") {
+				// index range lo..hi (exclusive), used in assigns clauses: s[0..4]
+				hi = p.parseExpr()
+				p.expect("]")
+				x = &EIndex{x, &ERange{lo, hi}}
+				continue
+			}
 			if p.accept(":") {
 				if !p.isOp("]") {
 					hi = p.parseExpr()
